@@ -92,7 +92,8 @@ def typestate(chk, prog, cfg):
             a2, ia = state_args(prog, i)
             if a2 == adt:
                 iargs = ia
-        summ, why = c17.summarize(prog, f["path"], adt)
+        summ, why = c17.sym_summary(prog, f, adt)
+        from ..lib import symrun as _sr, absint as _ai
         for pos, assigned, slot in STATES[adt]:
             o = oargs[pos] if pos < len(oargs) else None
             ot = prog.ty(o) if isinstance(o, int) else None
@@ -104,7 +105,7 @@ def typestate(chk, prog, cfg):
                 # generic in the output state: must be the input's state carried over
                 ok = it is not None and it["k"] == "param" and it["n"] == ot["n"]
                 if ok and summ is not None:
-                    ok = _carried(prog, b, summ.get(slot), slot)
+                    ok = summ.get(slot) == _sr.Sym("self." + slot)
                 if not ok:
                     if it is None:
                         chk.fail("R20.1", "producer-of-assigned-state-without-slot:%s" % (trait or name), b.where(),
@@ -120,15 +121,17 @@ def typestate(chk, prog, cfg):
                     chk.unrecognised("R20.1", "assigns:" + sk, b.where(), "cannot summarise %s (%s)" % (key, why), cfg)
                     continue
                 v = summ.get(slot)
-                carried = _carried(prog, b, v, slot) and it is not None and it["k"] == "adt" and it["d"] == assigned
-                sets = v is not None and (is_adt_agg(v, "core::option::Option", "Some") or (slot == "name" and adt.endswith("VariantBuilder")))
+                carried = v == _sr.Sym("self." + slot) and it is not None and it["k"] == "adt" and it["d"] == assigned
+                ov_ = _ai.opt_view(v) if v is not None else None
+                sets = v is not None and ((ov_ is not None and ov_[0] == "Some") or (slot == "name" and adt.endswith("VariantBuilder") and v != _sr.Sym("self.name")))
                 if sets:
                     # the value comes from an argument (or MetaType::new::<TY>())
-                    okv, whyv = c17.set_value_ok(prog, b, f, v, slot)
-                    chk.expect(okv, "R20.1", "assigns:" + sk, b.where(), "returns the `%s` state with %s := %s%s" % (assigned.split("::")[-1], slot, path_str(v)[:80], "" if okv else " -- " + whyv), cfg)
+                    okv, src = c17.sym_from_param(v)
+                    chk.expect(okv, "R20.1", "assigns:" + sk, b.where(), "returns the `%s` state with %s := %s%s" % (
+                        assigned.split("::")[-1], slot, _sr.show(v)[:80], "" if okv else " -- the value does not come from an argument (%s)" % src), cfg)
                 else:
                     chk.expect(carried, "R20.1", "assigns:" + sk, b.where(),
-                               "returns the `%s` state; slot `%s` = %s (%s)" % (assigned.split("::")[-1], slot, path_str(v)[:80] if v is not None else None,
+                               "returns the `%s` state; slot `%s` = %s (%s)" % (assigned.split("::")[-1], slot, _sr.show(v)[:80] if v is not None else None,
                                                                             "carried from an input in the same state" if carried else "NOT set and NOT carried from an assigned input"), cfg)
             else:
                 chk.ok("R20.1", "unassigned:" + sk, b.where(), "output state %s" % ot["s"].split("::")[-1], cfg)
